@@ -1,8 +1,8 @@
 """Concrete demonstrations of the defects the static checks report, against the real code in /repo.
-Run:  cd /repo && /venv/bin/python /verif/findings/demo_all.py [F1 F3 ...]
+Run:  /venv/bin/python /verif/findings/demo_all.py [F1 F3 ...]      (VERIF_REPO=<checkout> selects another tree)
 Each demo prints DEFECT (behaviour violates the property) or FIXED."""
-import sys, io, traceback
-sys.path.insert(0, "/repo")
+import os, sys, io, traceback
+sys.path.insert(0, os.environ.get("VERIF_REPO", "/repo"))
 from io import BytesIO
 
 def F1():
@@ -40,15 +40,19 @@ def F5():
     from buidl.pecc import FieldElement, Point
     p = 19
     a, b = FieldElement(0, p), FieldElement(7, p)
-    P = Point(FieldElement(18, p), FieldElement(0, p), a, b)   # 18^3+7 = 5839 = 0 mod 19? 
+    P = Point(FieldElement(10, p), FieldElement(0, p), a, b)   # 10^3 + 7 = 1007 = 53 * 19: (10, 0) has order 2
     try:
         r = P + P
         ok1 = r.x is None
         m1 = "P+P = %r" % (r,)
     except Exception as e:
         ok1 = False; m1 = "P+P raised %r" % e
-    q = FieldElement(3, 7) / FieldElement(0, 7)
-    return (not ok1) or True, "%s ; 3/0 in F_7 = %r" % (m1, q)
+    try:
+        q = FieldElement(3, 7) / FieldElement(0, 7)
+        ok2 = False; m2 = "3/0 in F_7 = %r" % (q,)
+    except Exception as e:
+        ok2 = True; m2 = "3/0 in F_7 raises %s" % type(e).__name__
+    return not (ok1 and ok2), "%s ; %s" % (m1, m2)
 
 def F6():
     from buidl.script import Script
@@ -212,7 +216,10 @@ def _p2tr_tx(witness_items, script_sig=None):
 
 def F12():
     tx = _p2tr_tx([b"\x50" + b"\x00" * 10])
-    ok = tx.verify_input(0)
+    try:
+        ok = tx.verify_input(0)
+    except Exception as e:
+        return False, "P2TR input whose witness is a single 0x50… item: rejected with %s" % type(e).__name__
     return ok is True, "P2TR input whose witness is a single 0x50… item: verify_input -> %s" % ok
 
 def F13():
@@ -300,9 +307,78 @@ def F20():
     src = inspect.getsource(PSBTIn.finalize)
     return "if len(script_sig_commands) < num_sigs:" in src, "p2sh arm tests `len(script_sig_commands) < num_sigs` with a list seeded by one dummy element"
 
+def F21():
+    """a: PSBTOut with a lone RedeemScript that does not hash to the P2SH commitment; b: PSBTIn given as non-witness UTXO
+    (prev_tx) plus a foreign WitnessScript; c: PSBTIn given as witness UTXO with a foreign RedeemScript."""
+    from buidl.psbt import PSBTIn, PSBTOut
+    from buidl.tx import Tx, TxIn, TxOut
+    from buidl.script import P2SHScriptPubKey, P2WSHScriptPubKey, RedeemScript, WitnessScript
+    from buidl.ecc import PrivateKey
+    secs = [PrivateKey(i + 1).point.sec() for i in range(2)]
+    foreign = [0x51, secs[0], secs[1], 0x52, 0xAE]
+    out = []
+    try:
+        PSBTOut(TxOut(1000, P2SHScriptPubKey(b"\x99" * 20)), redeem_script=RedeemScript(foreign))
+        out.append(("a", True))
+    except (ValueError, KeyError):
+        out.append(("a", False))
+    prev = Tx(1, [TxIn(b"\x00" * 32, 0)], [TxOut(1000, P2WSHScriptPubKey(b"\x11" * 32))], 0, network="testnet")
+    try:
+        PSBTIn(TxIn(prev.hash(), 0), prev_tx=prev, witness_script=WitnessScript(foreign))
+        out.append(("b", True))
+    except ValueError:
+        out.append(("b", False))
+    try:
+        PSBTIn(TxIn(b"\x22" * 32, 0), prev_out=TxOut(1000, P2SHScriptPubKey(b"\x99" * 20)), redeem_script=RedeemScript(foreign))
+        out.append(("c", True))
+    except ValueError:
+        out.append(("c", False))
+    return any(v for _, v in out), "foreign script accepted by validate(): %s" % out
+
+def F22():
+    """A 2-of-3 change output whose three keys all derive from ONE cosigner's xpub (so that cosigner alone can spend it)."""
+    import re
+    from buidl.psbt import PSBT, PSBTOut, NamedPublicKey, serialize_binary_path, SuspiciousTransaction
+    from buidl.descriptor import P2WSHSortedMulti
+    from buidl.hd import HDPublicKey
+    from buidl.script import WitnessScript, P2WSHScriptPubKey
+    root = os.environ.get("VERIF_REPO", "/repo")
+    src = open(os.path.join(root, "buidl", "test", "test_psbt.py")).read()
+    body = src[src.index("def test_describe_psbt_2of3"):]
+    desc = re.search(r'valid_output_record = "([^"]+)"', body).group(1)
+    b64 = re.search(r'testnet_psbt_b64 = "([^"]+)"', body).group(1)
+    d = P2WSHSortedMulti.parse(desc)
+    hdmap = {k["xfp"]: HDPublicKey.parse(k["xpub_parent"]) for k in d.key_records}
+    psbt = PSBT.parse_base64(b64, network="testnet")
+    idx = [i for i, o in enumerate(psbt.psbt_outs) if o.named_pubs][0]
+    honest = list(psbt.psbt_outs[idx].named_pubs.values())[0]
+    xfp = honest.root_fingerprint.hex()
+    base = honest.root_path.rsplit("/", 1)[0]
+    pts = []
+    for k in (5, 6, 7):
+        pt = hdmap[xfp].traverse("m/1/%d" % k).point
+        pt.__class__ = NamedPublicKey
+        pt.add_raw_path_data(bytes.fromhex(xfp) + serialize_binary_path("%s/%d" % (base, k)), network="testnet")
+        pts.append(pt)
+    secs = sorted(pt.sec() for pt in pts)
+    ws = WitnessScript([0x52] + secs + [0x53, 0xAE])
+    tx_out = psbt.tx_obj.tx_outs[idx]
+    tx_out.script_pubkey = P2WSHScriptPubKey(ws.sha256())
+    psbt.psbt_outs[idx] = PSBTOut(tx_out, witness_script=ws, named_pubs={pt.sec(): pt for pt in pts})
+    try:
+        r = psbt.describe_basic_multisig(hdpubkey_map=hdmap)
+    except SuspiciousTransaction as e:
+        return False, "output whose 3 keys all come from cosigner %s: rejected (%s)" % (xfp, str(e)[:60])
+    o = r["outputs_desc"][idx]
+    return o["is_change"] is True, "output whose 3 keys all come from cosigner %s is described with is_change=%s" % (xfp, o["is_change"])
+
 def F23():
+    import ast, inspect, textwrap
+    from buidl.merkleblock import MerkleTree
+    src = textwrap.dedent(inspect.getsource(MerkleTree.__init__))
+    uses_log = any(isinstance(n, ast.Attribute) and n.attr == "log" for n in ast.walk(ast.parse(src)))
     import math
-    return math.ceil(math.log(2 ** 29, 2)) != 29, "ceil(log(2**29, 2)) = %d" % math.ceil(math.log(2 ** 29, 2))
+    return uses_log, "MerkleTree.__init__ uses math.log: %s (ceil(log(2**29, 2)) = %d; building the 2^29 tree needs 8 GB, so the depth formula is read from the source)" % (uses_log, math.ceil(math.log(2 ** 29, 2)))
 
 def F24():
     from buidl.helper import bits_to_target
